@@ -12,6 +12,7 @@ EXTENDS Graph
 
 CONSTANTS MaxNodes, MaxSg, Threads, BiPropMode, Execs, MaxClears, MaxEvals, MaxEdges, MaxMarks,
           PropAllowed, SetAllAllowed,
+          LateEdges,   \* may edges between nodes that existed at the previous evaluation be added later
           RoundNodes   \* RoundNodes[k] = max number of nodes created after the (k-1)th clear
 
 VARIABLES stage, lastEdge, nclears, nevals, nedges, lastMark, nmarks, genStart
@@ -28,6 +29,7 @@ EdgeGuard(a, b) ==
   /\ stage <= 1 /\ nedges < MaxEdges /\ nevals < MaxEvals
   /\ a \in alive /\ b \in alive
   /\ (b < a \/ (b >= genStart /\ a < genStart))
+  /\ (LateEdges \/ nevals = 0 \/ (nclears > 0 /\ (a >= genStart \/ b >= genStart)))
   /\ LexLess(lastEdge, <<b, a>>)
 EdgeDone(a, b) ==
   /\ stage' = 1 /\ lastEdge' = <<b, a>> /\ nedges' = nedges + 1
@@ -94,6 +96,7 @@ RN_4_0 == <<4, 0>>
 RN_3_0 == <<3, 0>>
 RN_5_0 == <<5, 0>>
 RN_2_2 == <<2, 2>>
+RN_2_1 == <<2, 1>>
 
 MCSpec == MCInit /\ [][MCNext]_allv
 =============================================================================
